@@ -4,6 +4,7 @@ CONSTANTS
   V4Addrs = {"127.0.0.1", "127.0.0.2", "127.9.9.9", "10.1.2.3"}
   Duals = {FALSE, TRUE}
   ListForms = {FALSE, TRUE}
+  NameCases = {FALSE, TRUE}
   Garbage = {"unknown"}
   Lists = {{}, {"127.0.0.2"}, {"10.1.2.3"}, {"127.9.9.9", "::1"}, {"127.0.0.1", "10.1.2.3", "2001:db8::7"}}
   MaxXff = 2
